@@ -7,7 +7,9 @@ EXTENDS CallApi, TLC
 CONSTANTS Defects, Tolerated
 VARIABLES c, i, last
 vars == <<c, i, last>>
-view == <<c, i>>
+\* `last` is hidden from the fingerprint, except for whether the step failed a clause: otherwise a failing step that
+\* leaves the rest of the state unchanged would be merged with its predecessor and never be evaluated by Refines
+view == <<c, i, last.fails # {}>>
 
 Modes == {"NoBody", "Length", "Chunked", "Close"}
 
